@@ -146,7 +146,7 @@ def showGcsResp : Resp → String
   | .status s => "status " ++ showStatus s
   | .condFail a b => "cond " ++ String.intercalate "|" ((if a then ["412"] else []) ++ (if b then ["304"] else []))
   | .object b o => "obj " ++ showObj b o
-  | .media o => s!"media ct={Bytes.toHex o.meta.contentType} gen=#{o.gen} mg={o.metagen} data={Bytes.toHex o.content}"
+  | .media o => s!"media name={Bytes.toHex o.name} ct={Bytes.toHex o.meta.contentType} gen=#{o.gen} mg={o.metagen} data={Bytes.toHex o.content}"
   | .more k => s!"more {k}"
   | .pages b ps trunc =>
     s!"pages {ps.length}{if trunc then " TRUNCATED" else ""}" ++ String.join (ps.map fun (items, pfx) =>
